@@ -42,7 +42,9 @@ Definition push (s : sv) (bits : Z) : sv * bool :=
   if push_is_value bits then (mk_sv (inner s ++ [bits]) (len s + 1), true)
   else let '(l, ok) := push_zero (inner s) in (mk_sv l (len s + 1), ok).
 
-Definition retain_non_zero (s : sv) : sv := mk_sv (filter is_value (inner s)) (len s).
+(* `self.len = self.inner.len()` since the fix of the stale length: only values remain, one entry each *)
+Definition retain_non_zero (s : sv) : sv :=
+  let l := filter is_value (inner s) in mk_sv l (Z.of_nat (length l)).
 
 (* insertion sort, descending by f64::total_cmp; `insert_desc` keeps equal keys stable *)
 Fixpoint insert_desc (x : Z) (l : list Z) : list Z :=
